@@ -136,6 +136,13 @@ func init() {
 		return nil
 	}
 	extraLeaf["slice-int"] = func(l *LeafDesc) any { return ints(l) }
+	extraLeaf["slice-uintptr"] = func(l *LeafDesc) any {
+		out := make([]uintptr, len(l.Elems))
+		for i, e := range l.Elems {
+			out[i] = uintptr(e.I)
+		}
+		return out
+	}
 	extraLeaf["slice-str"] = func(l *LeafDesc) any {
 		out := make([]string, len(l.Elems))
 		for i, e := range l.Elems {
@@ -279,6 +286,9 @@ func c05Prim(r *core.Rng) *LeafDesc {
 		case 4:
 			return &LeafDesc{Tag: "complex128", F: float64(r.Intn(100)), I: int64(r.Intn(100))}
 		}
+		if r.Bool() {
+			return &LeafDesc{Tag: "uintptr", I: int64(r.Intn(1 << 16))}
+		}
 		return &LeafDesc{Tag: "rune", I: int64('a' + r.Intn(26))}
 	}
 	switch r.Intn(5) {
@@ -334,6 +344,9 @@ func c05Leaf(r *core.Rng) *LeafDesc {
 		}
 		return &LeafDesc{Tag: "ptr", N: depth, Elems: []*LeafDesc{prim}}
 	case 2, 3:
+		if r.Chance(1, 6) {
+			return &LeafDesc{Tag: "slice-uintptr", Elems: many(intLeaf, n)}
+		}
 		return &LeafDesc{Tag: "slice-int", Elems: many(intLeaf, n)}
 	case 4:
 		return &LeafDesc{Tag: "slice-str", Elems: many(strLeaf, n)}
@@ -468,7 +481,7 @@ func c05Sites(root *TNode) []c05Site {
 				i := len(l.Keys) - 1
 				sites = append(sites, c05Site{name: path + ":" + l.Tag + "-key", pos: i, apply: func() { l.Keys[i] += "~" }})
 			}
-			if l.Tag == "slice-int" || l.Tag == "slice-str" || l.Tag == "slice-any" || l.Tag == "slice-ptr" {
+			if l.Tag == "slice-int" || l.Tag == "slice-uintptr" || l.Tag == "slice-str" || l.Tag == "slice-any" || l.Tag == "slice-ptr" {
 				sites = append(sites, c05Site{name: path + ":" + l.Tag + "-longer", pos: len(l.Elems), apply: func() { l.Elems = append(l.Elems, l.Elems[0].Clone()) }})
 			}
 		case "stack":
